@@ -211,7 +211,7 @@ def main():
         "setup_cmd": "python3 tools/build_sut.py ossl-asan ossl-plain botan-plain ref fsx",
         "hooks": {"guard": "SOFTHSM_VERIF", "enable": "tools/build_sut.py passes -DSOFTHSM_VERIF to every variant it compiles from /repo's working tree",
                   "baseline_off_cmd": "cmake --build /repo/_build && ctest --test-dir /repo/_build -j8 --timeout 900",
-                  "source_commits": [], "fix_commits": ["e791416", "151a9e2", "96a30d4", "a80c8a6", "ba231e7", "6bd3dce", "e87af21", "bea9994", "588c9b7", "ceb5015", "38ed9d5", "d3eb7f4", "bf60869", "58c10b5", "813a6d6", "2adb934", "9affe31", "8d94e13", "fd7cd14", "084c459"], "add_only": True},
+                  "source_commits": [], "fix_commits": ["fb89533", "e791416", "151a9e2", "96a30d4", "a80c8a6", "ba231e7", "6bd3dce", "e87af21", "bea9994", "588c9b7", "ceb5015", "38ed9d5", "d3eb7f4", "bf60869", "58c10b5", "813a6d6", "2adb934", "9affe31", "8d94e13", "fd7cd14", "084c459"], "add_only": True},
         "engines": [
             {"name": "p11sh", "path": "engine/p11sh", "serves_properties": sorted(CHECKS), "kind_free_text": "PKCS#11 shell linked statically against the SUT; SNAP/BACK process snapshots; guard pages + canaries around every buffer"},
             {"name": "p11mc", "path": "py/p11mc", "serves_properties": sorted(CHECKS), "kind_free_text": "explicit-state explorer (level-synchronous BFS with replay-to-state, unmerged DFS), reference models, evidence/findings glue"},
